@@ -749,6 +749,19 @@ func runC20(c *Ctx) {
 			ys, _ := yaml.Marshal(al)
 			var a1, a2, a3 zap.AtomicLevel
 			e1 := a1.UnmarshalText(mt)
+			// the caller owns what MarshalText returned: it appends to it and
+			// overwrites it (as a caller building a longer message in place would);
+			// no later text form may be affected
+			if lt, err := l.MarshalText(); err == nil {
+				lt = append(lt, " (verbose)"...)
+				for i := range lt {
+					lt[i] = '#'
+				}
+			}
+			mt = append(mt, " and more"...)
+			for i := range mt {
+				mt[i] = '#'
+			}
 			e2 := json.Unmarshal(js, &a2)
 			e3 := yaml.Unmarshal(ys, &a3)
 			if e1 != nil || e2 != nil || e3 != nil || a1.Level() != l || a2.Level() != l || a3.Level() != l {
